@@ -409,6 +409,9 @@ func init() {
 		if f == nil {
 			return false
 		}
+		if faultReportedSuccess(c) {
+			return false
+		}
 		return f["op"] == "SaveVersion" && f["class"] == "nodes_of_new_version_without_root" && (f["symptom"] == "load" || f["symptom"] == "state")
 	}
 }
@@ -422,8 +425,19 @@ func init() {
 		if f == nil || !(strings.HasPrefix(c.V.Oracle, "crash") || strings.HasPrefix(c.V.Oracle, "fault-write")) {
 			return false
 		}
+		if faultReportedSuccess(c) {
+			return false
+		}
 		return f["op"] == "SaveVersion" && f["class"] == "fast_index_entries_without_label_update" && (f["symptom"] == "fast" || f["symptom"] == "reads")
 	}
+}
+
+// faultReportedSuccess: violations found by the fault engine carry what the operation reported; the multi-batch
+// findings below are only "known" when the operation did report the failure (a write that failed and was
+// reported as an error may leave a partially written database - that is the known non-atomicity; reporting
+// success is a different defect).
+func faultReportedSuccess(c *MatchCtx) bool {
+	return strings.HasPrefix(c.V.Oracle, "fault-write") && c.V.Facts["reported"] != "reported an error"
 }
 
 func init() {
@@ -433,6 +447,9 @@ func init() {
 	matchers["c05_rollback_cut_nodes_without_root"] = func(c *MatchCtx) bool {
 		f := c.V.Facts
 		if f == nil || !(strings.HasPrefix(c.V.Oracle, "crash") || strings.HasPrefix(c.V.Oracle, "fault-write")) {
+			return false
+		}
+		if faultReportedSuccess(c) {
 			return false
 		}
 		return f["op"] == "LoadVersionForOverwriting" && f["class"] == "partially_deleted_versions_above_target" && (f["symptom"] == "load" || f["symptom"] == "state")
@@ -445,6 +462,9 @@ func init() {
 	matchers["c05_prune_cut_dangling_reference_root"] = func(c *MatchCtx) bool {
 		f := c.V.Facts
 		if f == nil || !(strings.HasPrefix(c.V.Oracle, "crash") || strings.HasPrefix(c.V.Oracle, "fault-write")) {
+			return false
+		}
+		if faultReportedSuccess(c) {
 			return false
 		}
 		return f["op"] == "DeleteVersionsTo" && f["class"] == "dangling_reference_root" && (f["symptom"] == "load" || f["symptom"] == "state" || f["symptom"] == "reads" || f["symptom"] == "panic")
